@@ -61,6 +61,13 @@ func (c *segConn) Write(p []byte) (int, error) {
 	return len(p), nil
 }
 
+// setWriteLimit: -1 = no limit; n = Write fails once n bytes in total have been accepted
+func (c *segConn) setWriteLimit(n int) {
+	c.mu.Lock()
+	c.writeLimit = n
+	c.mu.Unlock()
+}
+
 func (c *segConn) Close() error {
 	c.mu.Lock()
 	c.closed = true
